@@ -1149,6 +1149,21 @@ func (c *Ctx) JSONDoc() *Doc {
 				holder.Required = []string{SortedKeys(holder.Properties)[0]}
 				c.AddSchema(c.CompName("Holder", "nullablelistholder"), holder)
 				c.Tag("json:nullable-list-component")
+				// a nullable object component as the value type of additional properties and as a
+				// whole request body: null is a value of it wherever it is referenced
+				nobj := &Schema{Type: "object", Nullable: true, Properties: map[string]*Schema{c.SafeName("p", "nobjprop"): {Type: "string"}, c.SafeName("p", "nobjprop"): {Type: "string"}}}
+				nobj.Required = []string{SortedKeys(nobj.Properties)[0]}
+				if c.AllowSchema(nobj, "component") {
+					nref := c.AddSchema(c.CompName("Reading", "nullableobject"), nobj)
+					if c.AllowSchema(nref, "addprops") {
+						holder.AdditionalProperties = &AddProps{Schema: nref}
+						c.Tag("json:nullable-object-component-as-addprops")
+					}
+					if c.AllowSchema(nref, "request-body") {
+						d.Paths["/"+c.PlainName("reading", "nobjpath")] = &PathItem{Put: &Operation{RequestBody: &RequestBody{Required: true, Content: JSONContent(nref)}, Responses: EmptyResponses()}}
+						c.Tag("json:nullable-object-component-as-body")
+					}
+				}
 			} else {
 				delete(d.Components.Schemas, strings.TrimPrefix(ref.Ref, RefSchemas))
 			}
